@@ -227,6 +227,9 @@ func GenHostPattern(r *vh.Rand, pool []string) string {
 	if r.Chance(1, 15) { // accepted by the loader although undocumented / called illegal
 		h = r.Pick("a.com:80", "*.com:80", "*.", ".a.com", "a..b", "*..com", "a.com.", "*.a.com.", "A.COM:8080", ".")
 	}
+	if r.Chance(1, 20) {
+		h = OddHostPatterns[r.Intn(len(OddHostPatterns))]
+	}
 	if r.Chance(1, 40) { // malformed stream
 		h = r.Pick("", "*a.com", "*.*.com", "a.*.com", "a*", "*.", ".", ".a.com", "a..b", "a.com:80", "*.a.com:80")
 	}
@@ -282,6 +285,9 @@ func GenPathPattern(r *vh.Rand, pool []string) string {
 	if r.Chance(1, 40) {
 		p = r.Pick("", "/a*b", "/*/*", "**", "*/", "/*a")
 	}
+	if r.Chance(1, 20) {
+		p = OddPathPatterns[r.Intn(len(OddPathPatterns))]
+	}
 	return p
 }
 
@@ -325,6 +331,17 @@ func GenRules(r *vh.Rand, n int, advMode bool) []Rule {
 	}
 	return rs
 }
+
+// unusual but legal request paths / path patterns / hosts (hardening round)
+var OddPaths = []string{"", "a", "a/b", "//", "///", "/a/", "/a//", "*", "/*", "/**", "/a%2Fb", "/a%2fb/", "/a?x=1", "/a/./b", "/a/../b", "/A", "/a b",
+	"/a/b/c/d/e/f/g/h/i/j/k/l/m/n/o/p", "/" + strings.Repeat("x", 2000), "/a/" + strings.Repeat("y/", 500), "/\u00e9", "/a/*", "/a*", "/.", "/..", "/a:b", "/a.b/"}
+var OddPathPatterns = []string{"/a%2Fb", "/a%2Fb*", "/a?x=1", "/a/./b", "/A*", "/a b*", "/" + strings.Repeat("x", 2000), "/" + strings.Repeat("x", 1999) + "*",
+	"/a/b/c/d/e/f/g/h/*", "/.", "/..*", "/a:b*", "/\u00e9*", "/a.b/*"}
+var OddHosts = []string{"xn--bcher-kva.example", "XN--BCHER-KVA.EXAMPLE.", "a.b.c.d.e.f.g.h.com", "123.45", "1.2.3.4", "1.2.3.4:80", "_dmarc.a.com", "a-.com",
+	"localhost", "LOCALHOST.", "::1", "[::1]", "[::1]:80", "[fe80::1%eth0]:80", "a.com:0", "a.com:http", "a.com..", "..", strings.Repeat("a", 63) + ".com",
+	strings.Repeat("a.", 100) + "com", "x.y." + strings.Repeat("a.", 100) + "com"}
+var OddHostPatterns = []string{"xn--bcher-kva.example", "*.xn--bcher-kva.example", "*.b.c.d.e.f.g.h.com", "*.h.com", "123.45", "*.45", "1.2.3.4", "_dmarc.a.com",
+	"localhost", "LOCALHOST", "[::1]", "[fe80::1%eth0]", "*.COM.", strings.Repeat("a", 63) + ".com", "*." + strings.Repeat("a.", 100) + "com"}
 
 // GenProbeHost derives a request host from the rules' own host patterns.
 func GenProbeHost(r *vh.Rand, rs []Rule) string {
@@ -372,6 +389,9 @@ func GenProbeHost(r *vh.Rand, rs []Rule) string {
 	if r.Chance(1, 60) {
 		h = r.Pick("", ".", "..", ":80", "a..com", "*", "*.com")
 	}
+	if r.Chance(1, 20) {
+		h = OddHosts[r.Intn(len(OddHosts))]
+	}
 	return h
 }
 
@@ -415,6 +435,9 @@ func GenProbePath(r *vh.Rand, rs []Rule) string {
 	}
 	if r.Chance(1, 20) {
 		p = r.Pick("", "/", "//", "*", "a", "/a//b", "/foo", "/fo", "/fo/x", "foo/b/c", "a/", "/a//x", "//x")
+	}
+	if r.Chance(1, 15) {
+		p = OddPaths[r.Intn(len(OddPaths))]
 	}
 	return p
 }
